@@ -195,6 +195,21 @@ CLAIMS = {
             "ignore::WalkParallel is trusted to hand out each file once; schedules are sampled, not enumerated; no "
             "permission faults (root sandbox); a panic inside a walker thread is C11's concern",
             "DESIGN.md section 3 C17"),
+    "C18": ("model_checking",
+            "TLA+ model of --update-all with one payload per document of a file (UpdateAll.tla) model-checked by TLC; "
+            "projects rendered from TLC's payload sequences run with --json then -U (twice) and disk contents judged by TLC",
+            "UpdateAll.tla processes payloads (overlap cursor, splice, write, commit count); MC_C18 checks for every "
+            "1-2 document payload sequence over an 8-byte file with 0-2 possibly nested edits per document that the "
+            "file ends as the original with all accepted edits applied and that the applied count is exact "
+            "(MC_C18_witness.cfg, MergeDocs = FALSE, reproduces the pre-fix lost update). TLC's payload sequences are "
+            "rendered as projects (JS with nested matches; HTML with js + ts scripts; several rules on one file; CRLF; "
+            "files without matches) and run with --json=stream and then -U, twice; Trace_C18 requires every file to "
+            "equal FinalP(before, announced edits) - byte-identical when nothing was announced -, 'Applied N' to equal "
+            "the number of accepted edits and exit status 0; the write hook events are compared with the model's one "
+            "write per document (drift).",
+            "the --json twin run is assumed to announce what -U would propose (same command, same tree); interactive "
+            "prompts (non accept-all) are not driven",
+            "DESIGN.md section 3 C18"),
 }
 
 NOT_YET = "check not built yet in this round (construction order in DESIGN.md section 9); not claimed until it runs"
